@@ -519,6 +519,9 @@ fn value_as_time(
                 .get("cook")
                 .map(|v| value_as_minutes(v, converter))
                 .transpose()?;
+            if prep_time.is_none() && cook_time.is_none() {
+                return Err(MetadataError::BadMapping);
+            }
             Ok(RecipeTime::Composed {
                 prep_time,
                 cook_time,
